@@ -651,9 +651,9 @@ def build_mt_group(rng, gid, bigs, inputs, dicts):
 # running
 
 def parse_output(out):
+    """-> (frames {fid: ...}, dumps [...], errs [...]); tolerant of the truncated last line of a crashed process"""
     frames = {}
     dumps = []
-    jobs = []
     errs = []
     cur = []
     last_fid = None
@@ -661,30 +661,35 @@ def parse_output(out):
         if not l:
             continue
         t = l.split(" ")
-        if t[0] == "F":
-            fid = int(t[1])
-            if t[2] == "E":
-                frames[fid] = dict(err=" ".join(t[3:-1]), nerr=int(t[-1]), jobs=cur)
-            else:
-                frames[fid] = dict(err=None, size=int(t[3]), hash=t[4], rt=int(t[5]), nerr=int(t[6]), sc=int(t[7]),
-                                   hex=t[8] if len(t) > 8 else None, jobs=cur)
-            cur = []
-            last_fid = fid
-        elif t[0] == "D":
-            d = dict(ctx=int(t[1]), why=t[2])
-            for kv in t[3:]:
-                k, v = kv.split("=")
-                d[k] = int(v)
-            dumps.append(d)
-            if last_fid is not None and d["why"] == "frame":
-                frames[last_fid]["dump"] = d
-                last_fid = None
-        elif t[0] == "J":
-            cur.append(tuple(int(x) for x in t[1:]))
-        elif t[0] == "A":
-            cur = []        # jobs of an abandoned frame
-        elif t[0] == "E":
-            errs.append(l)
+        try:
+            if t[0] == "F":
+                fid = int(t[1])
+                if t[2] == "E":
+                    frames[fid] = dict(err=" ".join(t[3:-1]), nerr=int(t[-1]), jobs=cur)
+                else:
+                    frames[fid] = dict(err=None, size=int(t[3]), hash=t[4], rt=int(t[5]), nerr=int(t[6]), sc=int(t[7]),
+                                       hex=t[8] if len(t) > 8 else None, jobs=cur)
+                cur = []
+                last_fid = fid
+            elif t[0] == "D":
+                d = dict(ctx=int(t[1]), why=t[2])
+                for kv in t[3:]:
+                    k, v = kv.split("=")
+                    d[k] = int(v)
+                if "osd" not in d:
+                    raise ValueError("truncated")
+                dumps.append(d)
+                if last_fid is not None and d["why"] == "frame":
+                    frames[last_fid]["dump"] = d
+                    last_fid = None
+            elif t[0] == "J":
+                cur.append(tuple(int(x) for x in t[1:6]))
+            elif t[0] == "A":
+                cur = []        # jobs of an abandoned frame
+            elif t[0] == "E":
+                errs.append(l)
+        except (ValueError, IndexError, KeyError):
+            errs.append("unparsable: " + l[:100])
     return frames, dumps, errs
 
 
@@ -838,8 +843,8 @@ def lockstep_cases(g, dumps, frames):
         end_abs = d["ws"] + d["wsz"]
         ias = end_abs - end_abs % ALIGN
         top = ias - taga - (d["ws"] + d["as"])
-        if top < 0:
-            continue
+        if top < 0 or not nodict:
+            continue        # CDict attach / copy paths re-mark the tables themselves: outside this lock-step
         # doReset is an input of the workspace sequence: take the model's own prediction (filled in later)
         a2 = [prev["ws"], prev["wsz"], prev["oe"], prev["te"], prev["tve"], prev["as"], prev["ios"], prev["ph"],
               1 if resized else 0, d["ws"], d["wsz"], 0, None, t1, t2, t3, tag, top]
